@@ -31,7 +31,7 @@ pub struct C01Doc {
     pub queries: Vec<Query>,
 }
 
-pub const PROBES: [&str; 21] = [
+pub const PROBES: [&str; 22] = [
     "hit_in_expansion_repository",
     "hit_index2_only_file",
     "hit_only_in_index2_while_index_exists",
@@ -53,6 +53,7 @@ pub const PROBES: [&str; 21] = [
     "expansion_token_without_repository",
     "second_half_of_index2_table",
     "more_than_32_index_files_loaded_on_one_handle",
+    "hit_in_entry_table_not_in_ascending_key_order",
 ];
 
 pub fn platform_of(p: u8) -> Platform {
@@ -242,7 +243,11 @@ pub fn gen_install(r: &mut Rng, tier: Tier, max_entries: usize) -> InstallSpec {
         });
     }
     let _ = tier;
-    InstallSpec { platform, repos, strays, secondary_segments: r.chance(1, 2) }
+    // one install in three lists its index entries in the order they were added or in descending
+    // order (a table that is scanned finds them all the same; one that is bisected does not)
+    let secondary_segments = r.chance(1, 2);
+    let table_order = if r.chance(1, 3) { 1 + r.below(2) as u8 } else { 0 };
+    InstallSpec { platform, repos, strays, secondary_segments, table_order }
 }
 
 pub fn generate(seed: u64, tier: Tier) -> Doc {
@@ -390,6 +395,7 @@ pub fn directed() -> Vec<Doc> {
         ],
         strays: vec![Stray { path: "sqpack/movie".into(), is_dir: true }, Stray { path: "sqpack/readme.txt".into(), is_dir: false }],
         secondary_segments: true,
+        table_order: 0,
     };
     let q = |id: u32, kind: QKind, p: &str| Query { id, kind, path: p.to_string() };
     let queries = vec![
@@ -458,11 +464,25 @@ pub fn directed() -> Vec<Doc> {
             idx += 1;
         }
     }
+    // the same install with its entry tables in the order the entries were added, and descending
+    for order in [1u8, 2] {
+        let mut inst = install.clone();
+        inst.table_order = order;
+        out.push(Doc {
+            prop: "C01".into(),
+            seed: 0xD1EC7ED0 + idx,
+            cfg: Cfg::Quiet,
+            benign: Benign::quiet(),
+            io_faults: vec![],
+            body: Body::C01(C01Doc { install: inst, queries: queries.clone() }),
+        });
+        idx += 1;
+    }
     out
 }
 
 fn shape_hash(b: &C01Doc) -> u64 {
-    let mut h = fnv1a(FNV_INIT, &[b.install.platform]);
+    let mut h = fnv1a(FNV_INIT, &[b.install.platform, b.install.table_order]);
     for r in &b.install.repos {
         h = fnv1a(h, &[r.exp, r.packs.len() as u8]);
         for p in &r.packs {
@@ -536,6 +556,9 @@ pub fn run(doc: &Doc, body: &C01Doc, trace: bool) -> RunResult {
             }
             if m.phantom {
                 h.probe(13);
+            }
+            if body.install.table_order != 0 {
+                h.probe(21);
             }
             let lower = q.path.to_ascii_lowercase();
             let stored_exact = body
@@ -792,6 +815,11 @@ pub fn shrink(b: &C01Doc) -> Vec<C01Doc> {
     if b.install.platform != 0 {
         let mut n = b.clone();
         n.install.platform = 0;
+        out.push(n);
+    }
+    if b.install.table_order != 0 {
+        let mut n = b.clone();
+        n.install.table_order = 0;
         out.push(n);
     }
     if b.install.secondary_segments {
